@@ -1,4 +1,5 @@
 import Audit.Tool
 import Uds.Props.C04
 import Uds.Props.C04Unlock
+import Uds.Props.C04Hist
 #audit Uds.Props.C04
